@@ -12,6 +12,13 @@ NOTE_COMMON = ("Trusted base: go/packages + go/types type-check of /repo's worki
 
 # id -> (technique, level text, level note, design ref)
 CLAIMS = {
+    "C04": (
+        "protocol-shape analysis of the GetMessages resume path on the statement-level CFG: reaching definitions of the client position, path facts at every send of a batch (slice low bound = position.Reply under the in-range test; follow loop: send dominated by the false edge of 'batch older than position', position advanced first, equal-id batch re-sliced before the advance, back-off edge strict), dominance of the per-session filter over every JSON write, def-use of the two parts of lastseen into the position literal, cancel-before-store and register-before-start ordering for the per-session request table",
+        "Partial: decides six structural clauses of the resume protocol of GetMessages (remainder of the named batch sliced at exactly lastseen.Reply in range; follow loop never goes backwards and never holds back a batch with the position's own id; "
+        "a batch applied only after the request started is re-sliced at the position; per-session filter on every write; position built from the two parts of lastseen in order; one reader per session), each a necessary condition of 'nothing missing, nothing twice'. "
+        "Delivery under concurrent Add/Delete inside GetNext and the window in which a lagging node catches up past the named batch between two look-ups are schedules and are not decided (one such loss is described in DESIGN.md, C04).",
+        NOTE_COMMON + " A genuine duplicate-delivery defect found by P3 was repaired (fix: 4b14e3c; findings/C04-resume-duplicates).",
+        "DESIGN.md section 3, C04"),
     "C06": (
         "exhaustive enumeration and discharge of every potentially panicking construct in the call closure of ProcessMessage over all registered handlers: parameter-count bounds propagated from the registry and direct calls (fixed point) and refined by dominating length tests; closed idiom list for index/slice expressions; reaching-definition nil analysis of every dereference of session/channel/member/message/prefix/URL pointers with path facts and the named state invariants; dropped-error, nil-map, termination-call, assertion/division, recursion and lock re-entry checks",
         "Panic-freedom of the state-machine step by obligation discharge, for all reachable states and all next lines at once: ~400 obligations (every msg.Params access, every index/slice expression, every pointer dereference, every lock acquisition inside the step, every error-returning call) are each discharged by a local guard, a registry bound, or one of the state invariants I0-I4 (whose preservation is C14's pairing rules, run as part of this check). "
@@ -143,8 +150,6 @@ CLAIMS = {
 }
 
 NOT_APPLICABLE = {
-    "C04": "quantifies over reader/writer interleavings and follower lag; correct-looking code fails only under specific schedules, "
-           "no structural necessary condition to check statically (DESIGN.md section 3, C04)",
 }
 
 PENDING = "check designed (DESIGN.md section 3) but not built yet in this tree; not claimed until its rule set exists"
